@@ -599,7 +599,9 @@ def desugar_body(b, bodies, known_uses, log):
                     res, cur_bb = run_fn(cur_bb, sink_f, [use(mv(e_l, ety))], rty)
                     d2 = new_local(b, "isize")
                     un2 = new_block(b, [], {"k": "unreachable"}, loc)
-                    hit = new_block(b, [assign(copy.deepcopy(dest), use(mv(res, rty)), loc)], goto(cont), loc)
+                    # (at the hit the closure's result is known to be Some: say so, so that a following `?` / match sees the variant)
+                    hit = new_block(b, [assign(copy.deepcopy(dest), adt_agg("std::option::Option", "Some", 1, [{"k": "move", "p": P(res, [{"dc": "Some"}, {"f": 0, "n": "0"}], "")}]), loc)],
+                                    goto(cont), loc)
                     b["blocks"][cur_bb]["stmts"].append(assign(P(d2), {"k": "discr", "p": P(res, ty=rty)}, loc))
                     b["blocks"][cur_bb]["term"] = {"k": "switch", "d": mv(d2), "dty": "isize", "ts": [[0, skip], [1, hit]], "else": un2}
                     none_stmt(assign(copy.deepcopy(dest), adt_agg("std::option::Option", "None", 0, []), loc))
